@@ -57,5 +57,9 @@ def run(ctx):
             for f in firsts:
                 jobs.append(Job("c14b.py", "h_shape", {"lang": lang, "pair": pair, "N": NB, "first": f, "tolerate": ["find_all:incomplete:inner-match-shadows-outer"]}, 300 if ctx.quick() else 1500, 40,
                                 tag=f"built-in header shape {lang}#{pair} N={NB}" + (f" first={alpha[f]!r}" if f is not None else ""), meta={"sigtag": "find_all:builtin", "twin": f in (None, 0)}))
+            # a second balanced group after the first (macro-style / curried headers): fixed prefix `x ( ) (` + symbolic continuation
+            if pair == 0 and not st.get("unmodelled"):
+                jobs.append(Job("c14b.py", "h_shape", {"lang": lang, "pair": pair, "N": 2 if ctx.quick() else 3, "prefix": ["x", "(", ")", "("], "tolerate": ["find_all:incomplete:inner-match-shadows-outer"]}, 300 if ctx.quick() else 1500, 40,
+                                tag=f"built-in header shape {lang}#{pair}: x ( ) ( + symbolic tokens", meta={"sigtag": "find_all:builtin", "twin": False}))
     ctx.bounds["built-in header shapes"] = f"every token sequence of length {NB} over each language's predicate-induced alphabet, for every captured header expression (reference: structural interpretation of the captured expression)"
     ctx.run_xh(jobs)
